@@ -17,6 +17,8 @@ def call(eng, e: ast.Call, st):
         name = f.id
         if name in st.env and isinstance(st.env[name], E._Closure):
             return call_closure(eng, st.env[name], e, st)
+        if name in st.env and isinstance(st.env[name], E._Callback):
+            return st.env[name].call(eng, st, [eng.ev(a, st) for a in e.args], e)
         b = _BUILTINS.get(name)
         if b is not None and name not in st.env:
             return b(eng, e, st)
